@@ -7,7 +7,8 @@ RULE = ("trees = every parents-first topology up to the bound (plus numberings w
         "parent-child offsets from a set of lattice vectors (zero-length segments, coincident points, axis steps, 3-4-5 steps), and binary "
         "trees with two bifurcation levels; each with the root at the origin or shifted away from it; every feature class, the extractor "
         "front end, Sholl at radii between and exactly on lattice distances and on step grids, and the L-Measure quantities; populations of "
-        "2-3 trees for the zero-padded rows; non-trivial = at least 3 nodes and a furcation; distinct by (topology, positions)")
+        "2-3 trees for the zero-padded rows; histories: a tree is measured, one node is re-parented and moved in place through its handle, and the "
+        "tree is measured again; non-trivial = at least 3 nodes and a furcation; distinct by (topology, positions)")
 
 
 def execute(c):
@@ -31,6 +32,10 @@ def nontrivial(c):
 def run(ctx):
     cases, path = ctx.gen("Gen_Morph", "Gen_Morph.%s.cfg" % ctx.tier)
     ctx.run_cases("trees", cases, path, execute, "Judge_Morph", keyfn, nontrivial, per_case_timeout=120)
+    def execute_edited(c):
+        return morph.observe_edited(c, random.Random(lib.vid(c)))
+    sub = [c for c in cases if c["kind"] == "tree"][:: (2 if ctx.tier == "quick" else 1)]
+    ctx.run_cases("edited-in-place-after-measuring", sub, path, execute_edited, "Judge_Morph", lambda c, o, w: w + ":after-edit", nontrivial, per_case_timeout=120)
     rng = ctx.rng
     trees = [c for c in cases if c["kind"] == "tree"]
     pops = [{"kind": "pop", "trees": [{"P": t["P"], "pos": t["pos"]} for t in rng.sample(trees, rng.randint(2, 3))]} for _ in range(30 if ctx.tier == "quick" else 400)]
@@ -48,5 +53,6 @@ def run(ctx):
 def replay(ctx, rec):
     c = rec["case"]
     p = ctx.write_cases("replay", [c])
-    ctx.run_cases("replay", [c], p, execute, "Judge_Morph", keyfn)
+    ex = (lambda cc: morph.observe_edited(cc, random.Random(lib.vid(cc)))) if rec.get("stage", "").startswith("edited") else execute
+    ctx.run_cases("replay", [c], p, ex, "Judge_Morph", keyfn)
     return ctx.finish(rule="replay of one recorded case")
